@@ -96,7 +96,7 @@ def worker(job):
         quick_ms = 300 if tier == "quick" else 1000
         cli_s = 20 if tier == "quick" else 120
         cheap = {ok for k in load_known() if k.get("status", "known") == "known" for ok in k["obligations"]}
-        res = R.verify_contract(v, cls, quick_ms=quick_ms, cli_timeout_s=cli_s,
+        res = R.verify_contract(v, cls, prop=prop, quick_ms=quick_ms, cli_timeout_s=cli_s,
                                 all_solvers=(tier == "thorough"), seed=seed,
                                 workdir=os.path.join(HERE, ".work"), cheap_keys=cheap)
         obs = []
@@ -248,6 +248,8 @@ def main():
                 reported_known.add(k["id"])
                 print("KNOWN-FINDING: property=%s %s: %s" % (a.prop, k["id"], k["what"]))
             continue
+        if o.get("solver") == "budget":
+            continue        # not attempted (its function already has open obligations that are reported)
         if o["key"] in baseline.get(a.prop, []):
             o["nofail"] = True
             violations.append(o)
@@ -318,7 +320,9 @@ def main():
     )
     ev = dict(property_id=a.prop, tier=a.tier, seed=seed, level=level_now, coverage=cov, assumptions=assumptions,
               wall_s=round(wall, 2), violations=len(violations))
-    json.dump(ev, open(os.path.join(HERE, "evidence", a.prop + ".json"), "w"), indent=1, default=str)
+    evdir = os.path.join(HERE, "evidence") if os.path.realpath(REPO) == "/repo" else os.path.join(HERE, ".work", "evidence_scratch")
+    os.makedirs(evdir, exist_ok=True)       # (runs against a scratch copy of the repository never touch evidence/)
+    json.dump(ev, open(os.path.join(evdir, a.prop + ".json"), "w"), indent=1, default=str)
     print("%s: %d/%d obligations discharged over %d functions, %d failed, %d undecided, %d unsupported; %.1fs; exit %d"
           % (a.prop, discharged, total, len(per_func), len(failed), len(undecided), len(unsupported), wall, exit_code))
     if a.v:
